@@ -117,6 +117,9 @@ class Values:
                     "Ca5.522(PO4.48)3OH", "Fe0.947O", "YBa2Cu3O6.93", "H0.5O0.25"]      # total atom counts that are not integers
             must = ["Ca" + "(" * k + "OH" + ")" * k + "2" for k in (15, 16, 17, 31, 32, 33, 63, 64, 65)]      # deep but well-formed nesting, around powers of two
             must += ["H2.00000000000000000000O", "Fe2O3.0000000000000000000", "SiO18446744073709551616", "C12345678901234567890123H"]   # very long digit runs
+            must += ["Fe0.9470000000000001O", "Ga0.30000000000000004As0.7", "Pb12.345678901234567Te", "C0.3333333333333333H0.6666666666666667"]    # shortest round-trip texts of doubles: 16-17 digits
+            must += ["CH2" * 400 + "Pb", "(" + "SiO2" * 300 + ")2U", "H" * 1023 + "O", "H" * 1024 + "O", "C" * 4095 + "O2"]     # beyond any fixed buffer
+            must += ["50%% glycerol", "Glycerol 20%mass", "NaCl 10%solution", "%s%s%s%s%s%s%s%s", "%n%n", "H2O%d", "100%"]            # printf conversions in a name
             bad = ["RfDb", "Rf2(SgO4)3", "DbBhO2", "Xx2Rf",                             # more than one reason to reject
                    None, "", "Hx", "h2o", "H2O ", "(H2O", "H2O)", "2H", "Rf", "H0", "He2..3", "Water", "()", "H2O\x01", "\xc3\xa9", "(SiO2)0", "Ca(OH)0", "(H2O)0.0",
                    "H.", "Ca.O", "H2(SO4).", "Ca5(PO4)0F", "Si" * 150, "(" * 40 + "H" + ")" * 40]
@@ -140,13 +143,14 @@ class Values:
             out += [stem + "Mo0.01", stem + "Mo0.09", stem + "Mo0.01", "Si0.9999995B0.0000005"]
             return out
         if p == "compoundstring":
-            return (r.sample(self.nist_names, min(len(self.nist_names), max(1, n - 4))) if self.nist_names else []) + [None, "", "water, liquid", "H2O", "y" * 300]
+            return (r.sample(self.nist_names, min(len(self.nist_names), max(1, n - 4))) if self.nist_names else []) + [None, "", "water, liquid", "H2O", "y" * 300,
+                    "50%% glycerol", "Glycerol 20%mass", "NaCl 10%solution", "%s%s%s%s%s%s%s%s", "%n%n", "100%", "Water%5$s"]      # printf conversions in a name
         if p == "radionuclidestring":
-            return self.nuc_names + [None, "", "55fe", "Fe55", "z" * 300]
+            return self.nuc_names + [None, "", "55fe", "Fe55", "z" * 300, "%s%s%s%s%s%s", "55Fe%n", "10%d"]
         if p == "symbol":
             return r.sample(formulas.SYMBOLS, min(107, max(1, n))) + [None, "", "h", "HE", "Xx", "Uuo"]
         if p == "material":
-            return (r.sample(self.crystal_names, min(len(self.crystal_names), max(1, n))) if self.crystal_names else ["Si"]) + [None, "", "si", "Unobtainium", "x" * 300]
+            return (r.sample(self.crystal_names, min(len(self.crystal_names), max(1, n))) if self.crystal_names else ["Si"]) + [None, "", "si", "Unobtainium", "x" * 300, "%s%s%s%s%s%s", "Si%n", "Ge%220s"]
         if p == "file_name":
             return [None, "/nonexistent/file.dat"]
         GENERIC.add("%s:string %s" % (fn, pname))
